@@ -1,5 +1,6 @@
 import Slu.Model.Order
 import SluProofs.Lemmas.Order
+import SluProofs.Lemmas.EtreeDef
 /-
 C10 — Column orderings are permutations; elimination tree exact and postordered.
 
@@ -9,7 +10,10 @@ n, no well-formedness assumption on the row indices unless stated.  `mmd.c` / `c
 their output enters `spPreorder_perm` through the hypothesis `isPerm A.n p`, which the driver evaluates
 on every run with the executable checker `isPerm`, sound and complete by `isPerm_iff_bijective`.
 
-Not proved (checked per run by the correspondence instead): `coletree_eq_def_goal` below.
+`coletree_eq_def` (Liu's algorithm with the concrete union-find and path halving = the elimination game on
+the graph of AᵀA) is proved at the end of the file, with the correctness of `find`/`link`
+(`find_correct`, `link_correct`), the characterisation of Liu's output for arbitrary lists
+(`liu_least`) and the symmetric variants (`symetree_eq_def`, `coletree_eq_symetree_ata`).
 -/
 namespace Slu.Order
 
@@ -271,13 +275,101 @@ example : Heap 3 #[1, 2, 3] := by
 example : (getata exA).col 1 = [0, 2] := by decide
 example : (atPlusA exA).col 0 = [1, 2] := by decide
 
-/-
-`coletree_eq_def_goal` (stretch, NOT proved): for every pattern with row indices < nr,
-    coletree nr nc col = etreeDef nc col
-(Liu's algorithm on first-column stars with path halving computes the tree defined by the elimination
-game on the graph of AᵀA).  The correspondence evaluates both sides on every case (n <= 40) instead:
-the driver's clause P6 compares the implementation's tree with `etreeDef` of the permuted matrix, and
-`ct.parent(def)` compares `sp_coletree` on A itself with `etreeDef`.
--/
+/-! ### Liu's algorithm = the definition of the elimination tree -/
+
+/-- **`find` with path halving is correct** (sp_coletree.c:find).  `UF pp k rep dep` says that the entries
+`< k` of `pp` form a forest (`dep` decreases strictly along `pp`) whose trees are the classes of `rep`,
+the root of the tree of `i` being `rep i`.  Then `find pp i`, run with the model's fuel `pp.size`, returns
+exactly `rep i`, and the array it leaves is a forest of the same size with the same classes and the
+same representatives. -/
+theorem find_correct (pp : Array Nat) (k : Nat) (rep dep : Nat → Nat) (h : UF pp k rep dep) (i : Nat)
+    (hi : i < k) :
+    (find pp i).2 = rep i ∧ rep i < k ∧ pp.getD (rep i) 0 = rep i ∧
+    UF (find pp i).1 k rep dep ∧ (find pp i).1.size = pp.size := by
+  obtain ⟨h1, h2, h3⟩ := find_spec h i hi
+  obtain ⟨r1, r2, _⟩ := h.rep_root i hi
+  exact ⟨h2, r1, r2, h1, h3⟩
+
+/-- **`link` merges two classes** (sp_coletree.c:link, `pp[s] = t`): for two different roots `s`, `t` the
+result is a forest whose classes are the old ones with those of `s` and `t` united under `t`. -/
+theorem link_correct (pp : Array Nat) (k : Nat) (rep dep : Nat → Nat) (h : UF pp k rep dep) (s t : Nat)
+    (hs : s < k) (ht : t < k) (hrs : rep s = s) (hrt : rep t = t) (hne : s ≠ t) :
+    UF (pp.setIfInBounds s t) k (fun x => if rep x = s then t else rep x)
+      (fun x => if rep x = s then dep x + dep t + 1 else dep x) :=
+  UF.link h s t hs ht hrs hrt hne
+
+/-- **What Liu's algorithm computes, any lists.**  With `a — b` whenever the smaller index is listed under
+the larger one (`SE`), and `T E v i v` = "a walk from `i` to `v` whose interior vertices are all `< v`":
+`parent[v]` is the least `i` in `(v, nc)` with such a walk, and `nc` when there is none. -/
+theorem liu_parent_least (nc : Nat) (nbrs : Nat → List Nat) :
+    (liu nc nbrs).size = nc ∧
+    ∀ v, v < nc → Least (fun i => T (SE nbrs nc) v i v) nc v ((liu nc nbrs).getD v 0) :=
+  liu_least nc nbrs
+
+/-- **The elimination game computes the same thing**: on an `n`-by-`n` adjacency matrix of a symmetric
+irreflexive relation `E`, `etreeOfGraph` returns for every `v` the least later vertex joined to `v` by a
+walk through vertices `< v` (that is the first sub-diagonal entry of column `v` of the symbolic Cholesky
+factor: the fill lemma is the invariant `DInv`). -/
+theorem etreeOfGraph_parent_least (E : Nat → Nat → Prop) (hEs : ∀ a b, E a b → E b a)
+    (hEi : ∀ a b, E a b → a ≠ b) (n : Nat) (g0 : Array (Array Bool)) (hsq : Sq n g0)
+    (hg : ∀ i j, i < n → j < n → (adjGet g0 i j = true ↔ E i j)) :
+    (etreeOfGraph n g0).size = n ∧
+    ∀ v, v < n → Least (fun i => T E v i v) n v ((etreeOfGraph n g0).getD v 0) :=
+  etreeOfGraph_least hEs hEi n g0 hsq hg
+
+/-- **Liu's algorithm returns the column elimination tree** (sp_coletree.c = the definition).  For every
+`nr`-by-`nc` pattern given by its columns (row indices in any order, repetitions allowed), provided the
+row indices are `< nr`: the array computed by `coletree` (first-column stars, union-find with path
+halving, `root[]`) is equal to `etreeDef` (elimination game on the graph of AᵀA: parent(j) = first
+off-diagonal row of column j of the symbolic Cholesky factor), entry by entry, root marker `nc`
+included. -/
+theorem coletree_eq_def (nr nc : Nat) (col : Nat → List Nat)
+    (hrow : ∀ c, c < nc → ∀ r ∈ col c, r < nr) : coletree nr nc col = etreeDef nc col :=
+  coletree_eq_etreeDef nr nc col hrow
+
+/-- the same without any hypothesis: row indices `≥ nr` are ignored by `sp_coletree` -/
+theorem coletree_eq_def_all (nr nc : Nat) (col : Nat → List Nat) :
+    coletree nr nc col = etreeDef nc (fun c => (col c).filter (· < nr)) :=
+  coletree_eq_etreeDef_filter nr nc col
+
+/-- the hypothesis of `coletree_eq_def` cannot be dropped: a row index `≥ nr` is invisible to `coletree` -/
+example : coletree 0 2 (fun _ => [0]) ≠ etreeDef 2 (fun _ => [0]) := by decide +kernel
+example : coletree 3 3 exA.col = #[1, 2, 3] ∧ etreeDef 3 exA.col = #[1, 2, 3] := by decide +kernel
+
+/-- for a stored matrix: every stored row index `< m` is all that is needed, for every column
+permutation applied by `sp_preorder` -/
+theorem coletree_permView_eq_def (A : Pat) (p : Array Nat) (hrow : ∀ r ∈ A.rowind.toList, r < A.m) :
+    coletree A.m A.n (permView A p).col = etreeDef A.n (permView A p).col := by
+  apply coletree_eq_def
+  intro c _ r hr
+  apply hrow
+  unfold View.col slice at hr
+  exact List.mem_of_mem_drop (List.mem_of_mem_take hr)
+
+/-- **The symmetric algorithm** (sp_coletree.c:sp_symetree) on a structurally symmetric pattern returns the
+elimination tree of its graph (`symAdj`, the graph of A + Aᵀ). -/
+theorem symetree_eq_def (n : Nat) (col : Nat → List Nat)
+    (hsym : ∀ i j, i < n → j < n → i ∈ col j → j ∈ col i) :
+    symetree n col = etreeOfGraph n (symAdj n col) :=
+  symetree_eq_etreeOfGraph n col hsym
+
+/-- **The first-column trick is correct**: `sp_coletree` on A gives the tree that `sp_symetree` gives on the
+explicitly formed pattern of AᵀA (`getata`). -/
+theorem coletree_eq_symetree_getata (A : Pat) (hrow : ∀ c, c < A.n → ∀ r ∈ A.col c, r < A.m) :
+    coletree A.m A.n A.col = symetree A.n (getata A).col := by
+  rw [coletree_eq_symetree_ata A.m A.n A.col hrow]
+  unfold symetree
+  apply liu_congr
+  intro a b _ ha
+  rw [getata_col A a ha]
+
+example : ∀ c, c < exA.n → ∀ r ∈ exA.col c, r < exA.m := by decide
+example : ∀ i, i < 3 → ∀ j, j < 3 → i ∈ (getata exA).col j → j ∈ (getata exA).col i := by decide +kernel
+example : UF #[0, 0, 1] 3 (fun _ => 0) id := by
+  refine ⟨by decide, ?_, ?_, ?_⟩ <;> intro i hi <;>
+    (match i, hi with
+     | 0, _ => decide
+     | 1, _ => decide
+     | 2, _ => decide)
 
 end Slu.Order
